@@ -340,7 +340,6 @@ func (w *world) modelOp(op *Op) string {
 	case "enumopen":
 		w.mIter = w.m.NewForIn(w.mobjs[op.Obj])
 		w.mIterLoose = w.c.Kind == "ta"
-		w.slotSeen = map[string]bool{}
 		return "ok"
 	case "enumnext":
 		if w.mIter == nil {
@@ -387,6 +386,9 @@ func (w *world) exec(i int, op *Op) stepRec {
 	rec.raw = w.issue(op)
 	if w.mon.trace {
 		fmt.Printf(" -> %s\n", rec.raw)
+	}
+	if op.Op == "enumopen" {
+		w.slotSeen = map[string]bool{} // a new enumeration (independent of whether the model still follows this world)
 	}
 	if op.Op == "enumnext" && strings.HasPrefix(rec.raw, "s:") {
 		if w.slotSeen[rec.raw] {
